@@ -1,0 +1,12 @@
+//go:build verif
+
+// Round 5, area I: clusterinfo.New (used by the discoverer of nsq_to_file, C19) returns a new ClusterInfo around the client it is given.
+// Comment-only file.
+
+package clusterinfo
+
+//@ func New(log lg.AppLogFunc, client *http_api.Client) *ClusterInfo
+//@   props C19
+//@   ensures[new] result != nil && fresh(result) && result.client == client
+//@   modifies
+//@   nochan
